@@ -179,7 +179,23 @@ def random_cfg_keys(seed, tier):
         if not note_keys:
             continue
         walks = [random_key_walk(rng, cfg, length, note_keys, sorted(actions), p_action=rng.choice([0.1, 0.3])) for _ in range(n_walks)]
-        batches.append({"cfg": cfg, "cfgmode": "literal", "sub": rng.choice(["", "", "Keyboard"]), "walks": walks})
+        sub = rng.choice(["", "", "Keyboard"])
+        if ci % 3 == 0:
+            # a hat that emulates keys ON THE PITCHES OF THE KEYS (same notes, same offsets), in every mapping: it is
+            # flicked (deflected and let go at once) anywhere in the walk; key steps are judged by the key rules as ever
+            hat = axis("key", note=rng.choice(notes), noteNeg=rng.choice(notes), off=rng.choice([0, 0, 1, 7, 15]),
+                       offNeg=rng.choice([0, 0, 1, 7, 15]), bidi=True)
+            for m in maps:
+                m["axes"] = {"ABS_HAT0X": dict(hat)}
+            cfg["axinfo"] = {"ABS_HAT0X": {"min": -1, "max": 1}}
+            sub = ""
+            for w in walks:
+                end = len(w) - (1 if w and w[-1]["ev"] == "disconnect" else 0)
+                for _ in range(max(2, len(w) // 12)):
+                    i = rng.randrange(0, end + 1)
+                    w[i:i] = [{"ev": "axis", "a": "ABS_HAT0X", "raw": rng.choice([-1, 1])}, {"ev": "axis", "a": "ABS_HAT0X", "raw": 0}]
+                    end += 2
+        batches.append({"cfg": cfg, "cfgmode": "literal", "sub": sub, "walks": walks})
     return batches
 
 
